@@ -226,8 +226,10 @@ def regfile_oracle(init, cycles):
 BASES = [0x10, 0x0, 0x3, 0xff8, 0xffffffffffffffe8, 0xfffffffffffffff8, 0x7ffffffffffffffc, 0x40]
 
 
-def mem_program(rng):
-    if rng.random() < 0.4:
+def mem_program(rng, stationary=None):
+    if stationary is None:
+        stationary = rng.random() < 0.4
+    if stationary:
         return mem_program_stationary(rng)
     bases = rng.sample(BASES, 4)
     st = ["register pP { pc : 64 = 0; }", "p_pc = P_pc + 10;", "pc = P_pc;", stat_stmt(rng, "(i10bytes)[11..15]"),
